@@ -6,9 +6,9 @@ from c01 import U, EPS
 
 PID = "C14"
 MODEL_TARGETS = ["Proofs/Eval.vo", "Amount/F64.vo", "Amount/Dec.vo", "Gen/Catalogue.vo", "Macro/TempInst.vo"]
-PROOF_TARGETS = ["Props/C14.vo", "Pinned/C14.vo", "Props/Accuracy.vo", "Pinned/Accuracy.vo"]
-PROPS = ["Props/C14.v", "Props/Accuracy.v"]
-COQCHK = ["QV.Props.C14", "QV.Props.Accuracy"]
+PROOF_TARGETS = ["Props/C14.vo", "Pinned/C14.vo", "Props/Accuracy.vo", "Pinned/Accuracy.vo", "Props/AccuracyDec.vo", "Pinned/AccuracyDec.vo"]
+PROPS = ["Props/C14.v", "Props/Accuracy.v", "Props/AccuracyDec.v"]
+COQCHK = ["QV.Props.C14", "QV.Props.Accuracy", "QV.Props.AccuracyDec"]
 TRUSTED_BASE = [
     "Coq 8.16.1 kernel (coqc; vm_compute for the facts about the 6-row table); coqchk in the thorough tier",
     "translator rs2j+j2v: ConversionTable::convert translated from src/converter.rs (iter().find_map with a bool::then closure -> iter_find_map_res), the rows of TEMPERATURE_CONVERTER regenerated from src/temperature.rs as (constant, constant, literal, literal)",
@@ -18,8 +18,8 @@ TRUSTED_BASE = [
 LEVEL = ("Coq theorems (Props/C14.v): for EVERY instance, EVERY table (duplicates, gaps) and EVERY amount the converter returns the value unchanged for the present unit, else "
          "amount*factor+offset of the FIRST entry for (from,to), else nothing (induction over the table; abstract amount type); the regenerated temperature table has exactly one row per ordered "
          "pair of distinct units and every literal equals the physical constant (exactly where terminating, within 0.5e-18 otherwise) - computed by the kernel. "
-         "Accuracy against the formulas, inverse pairs and composition are judged on the implementation with exact rationals (testing, supporting). In the binary floating-point configuration amount*factor+offset with two rounding factors is a theorem (ACC_C14_affine).")
-LEVEL_NOTE = "Trusted: Coq kernel, translator rs2j+j2v, Spec/Temperature.v, Macro/TempInst.v, hand models of binary64/fpdec in the correspondence; no axioms."
+         "Accuracy against the formulas, inverse pairs and composition are judged on the implementation with exact rationals (testing, supporting). In the binary floating-point configuration amount*factor+offset with two rounding factors is a theorem (ACC_C14_affine); in the decimal configuration it is within 5e-19 of the exact value - the sum is exact - and exact when the product needs no rounding (DEC_C14_affine).")
+LEVEL_NOTE = "Trusted: Coq kernel, translator rs2j+j2v, Spec/Temperature.v, Macro/TempInst.v, hand models of binary64 (Flocq) / fpdec; no axioms in the structural theorems, the accuracy theorems rest on Flocq and the stdlib real-number axioms."
 ASSUMPTIONS = [
     "Rust's Iterator::find_map / bool::then behave as the list functions they are translated to (validated on random tables with duplicates and gaps)",
     "f64 = IEEE binary64 (Flocq), Decimal = Amount/DecModel.v in the correspondence",
